@@ -123,8 +123,11 @@ class require:  # pylint: disable=invalid-name
         if contract_checker is None:
             # Wrap the function with a contract checker
             contract_checker = icontract._checkers.decorate_with_checker(func=func)
-
-        result = contract_checker
+            result = contract_checker
+        else:
+            # The checker has been found somewhere down the decorator stack. We must return the function as given,
+            # lest we strip the decorators which were applied on top of the checker.
+            result = func
 
         assert self._contract is not None
         icontract._checkers.add_precondition_to_checker(
@@ -326,8 +329,11 @@ class ensure:  # pylint: disable=invalid-name
         if contract_checker is None:
             # Wrap the function with a contract checker
             contract_checker = icontract._checkers.decorate_with_checker(func=func)
-
-        result = contract_checker
+            result = contract_checker
+        else:
+            # The checker has been found somewhere down the decorator stack. We must return the function as given,
+            # lest we strip the decorators which were applied on top of the checker.
+            result = func
 
         assert self._contract is not None
         icontract._checkers.add_postcondition_to_checker(
